@@ -65,6 +65,11 @@ def cases(tier):
         for mode in ('direct', 'indirect'):
             for bo in ('little', 'big'):
                 out.append({'kind': 'reuse', 'how': how, 'mode': mode, 'byteorder': bo})
+    # nearly constant rows (spread below 1e-5 relative / 1e-8 absolute, distinct in float32) and exactly constant rows
+    for dtype, idt in (('float64', 'int64'), ('float32', 'int32'), ('float64', 'float32')):
+        for n, ch in ((2, 4), (13, 3), (13, 8192)):
+            for bo in ('little', 'big'):
+                out.append({'kind': 'pixels', 'n_pixels': n, 'chunk': ch, 'units': 'narrow', 'byteorder': bo, 'sink': 'bytes', 'dtype': dtype, 'index_dtype': idt})
     for dtype in ('float32',):
         for n in (1, 13):
             out.append({'kind': 'pixels', 'n_pixels': n, 'chunk': 4, 'units': 'default', 'byteorder': 'little', 'sink': 'bytes', 'dtype': dtype})
